@@ -55,6 +55,8 @@ class Life(object):
                     return False
                 if self.close_how == 'drop':
                     b.drop('eof')
+                else:
+                    b.silent = True        # a hung broker: nothing is answered any more
                 return True
             br.handlers['Connection.Close'] = on_close
         rt.on_connect = on_connect
